@@ -291,8 +291,11 @@ def gen_int_literal(rng):
     return lit_int(v, "0o" + format(v, "o").zfill(nd), 3 * nd)
 
 
-STR_CHARS = ["a", "b", "Z", "0", " ", "~", "é", "ß", "€", "中", "😀", "\\n", "\\t", "\\0", "\\\\", "\\x41", "\\x7f", "\\u{e9}", "\\u{1F600}", "\\u{0}"]
-UNESC = {"\\n": "\n", "\\t": "\t", "\\0": "\0", "\\\\": "\\", "\\\"": "\"", "\\x41": "A", "\\x7f": "\x7f", "\\u{e9}": "é", "\\u{1F600}": "😀", "\\u{0}": "\0"}
+STR_CHARS = ["a", "b", "Z", "0", " ", "~", "é", "ß", "€", "中", "😀", "\\n", "\\t", "\\0", "\\\\", "\\x41", "\\x7f", "\\u{e9}", "\\u{1F600}", "\\u{0}",
+             # the escaped quotes and \r (finding F70, repaired: `\"` ended the string in the tokenizer; this list had left it out
+             # because it "did not work" - the statement says every escape form)
+             "\\\"", "\\'", "\\r"]
+UNESC = {"\\'": "'", "\\r": "\r", "\\n": "\n", "\\t": "\t", "\\0": "\0", "\\\\": "\\", "\\\"": "\"", "\\x41": "A", "\\x7f": "\x7f", "\\u{e9}": "é", "\\u{1F600}": "😀", "\\u{0}": "\0"}
 
 
 def gen_str_literal(rng, ascii_first=False):
